@@ -226,6 +226,9 @@ func (fs *fsMutable) SetInodeAttributes(ctx context.Context, op *fuseops.SetInod
 		if err != nil {
 			return jfuse.EIO
 		}
+		defer func() {
+			_ = file.Close()
+		}()
 		if *op.Size > math.MaxInt64 {
 			fs.l.Error("Received size greater than MaxInt64", zap.Uint64("size", *op.Size), zap.Uint64("inode", uint64(op.Inode)))
 			return jfuse.EINVAL
@@ -511,10 +514,13 @@ func (fs *fsMutable) ReadFile(
 	if err != nil {
 		return jfuse.EIO
 	}
+	// the backing file is opened for every read: release its descriptor when done
+	defer func() {
+		_ = file.Close()
+	}()
 	fs.lockBackingFiles.Lock()
 	defer fs.lockBackingFiles.Unlock()
 
-	fs.backingFiles[op.Inode] = &file
 	op.BytesRead, err = file.ReadAt(op.Dst, op.Offset)
 	if err != nil && err != io.EOF {
 		return jfuse.EIO
@@ -544,6 +550,10 @@ func (fs *fsMutable) WriteFile(
 	fs.lockBackingFiles.Lock()
 	defer fs.lockBackingFiles.Unlock()
 
+	// the handle is kept for FlushFile/SyncFile: release the one it replaces
+	if previous, ok := fs.backingFiles[op.Inode]; ok && previous != nil && *previous != nil {
+		_ = (*previous).Close()
+	}
 	fs.backingFiles[op.Inode] = &file
 	n, err = file.WriteAt(op.Data, op.Offset)
 	if err != nil {
@@ -703,6 +713,10 @@ func (fs *fsMutable) createNode(lk []byte, parentINode fuseops.InodeID, childNam
 		// dont return error as open file will retry this.
 		file, err := fs.localCache.Create(fmt.Sprint(iNodeID))
 		if err == nil {
+			if previous, ok := fs.backingFiles[iNodeID]; ok && previous != nil && *previous != nil {
+				// the inode number is being reused: release the handle of its former owner
+				_ = (*previous).Close()
+			}
 			fs.backingFiles[iNodeID] = &file
 		} else {
 			fs.l.Warn("failed to create backing file: open file will retry this",
@@ -804,6 +818,9 @@ func commitFileUpload(
 		}
 		return
 	}
+	defer func() {
+		_ = file.Close()
+	}()
 	// written, key, keys, duplicate, err =
 	putRes, err := caFs.Put(ctx, file)
 	if err != nil {
